@@ -106,7 +106,7 @@ func (c *Catalog) checkSpecTypes(ns *NodeStruct, e PExpr) []string {
 
 func ruleC19R1(w *World, r *Report) {
 	const rule = "C19/R1"
-	r.rule(rule, "for every node struct, the body of Pos()/End() in package ast is exactly the Go translation of the struct's 'pos ='/'end =' specification (parsed by the checker's own POSLANG parser and type-checked against the fields); every node struct has both methods, and no Pos/End method exists without a specification", 500)
+	r.rule(rule, "for every node struct, the body of Pos()/End() in package ast is exactly the Go translation of the struct's 'pos ='/'end =' specification (parsed by the checker's own POSLANG parser and type-checked against the fields); every node struct has both methods, and no Pos/End method exists without a specification", 250)
 	cat := w.Catalog()
 	if len(cat.Structs) == 0 {
 		r.errorf("no node structs found in package ast")
@@ -207,7 +207,7 @@ func ruleC19R1(w *World, r *Report) {
 // translated to.
 func ruleC19R3(w *World, r *Report) {
 	const rule = "C19/R3"
-	r.rule(rule, "tools/util/poslang: each expression type has both an interpreter method (Eval*) and an emitter method (*ToGo), and each emitter names the ast helper that the checker's translation of the same construct names (posChoice, posAdd, nodePos, nodeEnd, nodeChoice, nodeSliceIndex, nodeSliceLast, wrapNode, len, ifThenElse)", 10)
+	r.rule(rule, "tools/util/poslang: each expression type has both an interpreter method (Eval*) and an emitter method (*ToGo), and each emitter names the ast helper that the checker's translation of the same construct names (posChoice, posAdd, nodePos, nodeEnd, nodeChoice, nodeSliceIndex, nodeSliceLast, wrapNode, len, ifThenElse)", 5)
 	pl := w.Pkgs[modRoot+"/tools/util/poslang"]
 	if pl == nil {
 		r.errorf("package tools/util/poslang not loaded")
